@@ -4,7 +4,7 @@
 # usage: seedverify.sh <dir with patch.diff + demo_test.go> <relative path for the demo in the repo>
 set -u
 export GOFLAGS=-mod=mod GOPROXY=off GOSUMDB=off GOTOOLCHAIN=local
-D=$1; DEMO_PATH=$2; RUN=${3:-.}
+D=$1; DEMO_PATH=$2; RUN=${3:-.}; SHORT=${SHORT--short}
 WT=/tmp/wt-verify-$$
 git -C /repo worktree add -q --detach $WT HEAD || exit 2
 trap 'git -C /repo worktree remove --force $WT >/dev/null 2>&1' EXIT
@@ -12,13 +12,13 @@ cd $WT
 cp $D/demo_test.go $WT/$DEMO_PATH
 PKG=./$(dirname $DEMO_PATH)
 echo "== demo WITHOUT the change"
-timeout 900 go test -vet=off -count=1 -short -run "$RUN" $PKG > /tmp/sv-$$-a.log 2>&1; A=$?
+timeout 900 go test -vet=off -count=1 $SHORT -run "$RUN" $PKG > /tmp/sv-$$-a.log 2>&1; A=$?
 tail -3 /tmp/sv-$$-a.log
 git apply $D/patch.diff || { echo "patch does not apply"; exit 2; }
 echo "== build"
 timeout 300 go build ./... || { echo "BUILD FAILS"; exit 1; }
 echo "== demo WITH the change"
-timeout 900 go test -vet=off -count=1 -short -run "$RUN" $PKG > /tmp/sv-$$-b.log 2>&1; B=$?
+timeout 900 go test -vet=off -count=1 $SHORT -run "$RUN" $PKG > /tmp/sv-$$-b.log 2>&1; B=$?
 tail -5 /tmp/sv-$$-b.log
 rm -f $WT/$DEMO_PATH
 echo "== -short suite WITH the change"
